@@ -1,17 +1,18 @@
 //! C02 — extensivity.  Emits, per configuration, the regenerated program with its degree
 //! obligations and translation-validation evaluations, and runs the scaling / Euler / Gibbs-Duhem
 //! oracle on the public State API (the search of DESIGN.md §4, always on).
-use feos_verif::configs::{self, Config, RState, Rng};
+use feos_verif::configs::{self, Config, ConfigG, RState, Rng};
+use feos_verif::functionals;
 use feos_verif::emit;
 use feos_verif::trace;
-use feos::ResidualModel;
-use feos_core::{Contributions, ReferenceSystem, State};
+
+use feos_core::{Contributions, ReferenceSystem, Residual, State};
 use ndarray::Array1;
 use quantity::{Moles, Temperature, Volume};
 use serde_json::{json, Value};
 use std::sync::Arc;
 
-pub fn mk_state(model: &Arc<ResidualModel>, s: &RState) -> Option<State<ResidualModel>> {
+pub fn mk_state<R: Residual>(model: &Arc<R>, s: &RState) -> Option<State<R>> {
     State::new_nvt(
         model,
         Temperature::from_reduced(s.t),
@@ -28,7 +29,7 @@ pub struct Check {
 }
 
 /// Euler / Gibbs-Duhem identities and scale invariance on the public State API (reduced units)
-pub fn euler_checks(model: &Arc<ResidualModel>, s: &RState, lam: f64) -> Vec<Check> {
+pub fn euler_checks<R: Residual>(model: &Arc<R>, s: &RState, lam: f64) -> Vec<Check> {
     let mut out = Vec::new();
     let st = match mk_state(model, s) {
         Some(st) => st,
@@ -147,20 +148,8 @@ pub fn euler_checks(model: &Arc<ResidualModel>, s: &RState, lam: f64) -> Vec<Che
 
 pub const ORACLE_TOL: f64 = 1e-8;
 
-pub fn run(out_dir: &str, tier: &str, seed: u64, only: Option<String>, oracle_n: Option<usize>) -> Value {
-    let full = tier == "thorough";
-    let cfgs: Vec<Config> = configs::all(full || only.is_some())
-        .into_iter()
-        .chain(configs::literal())
-        .filter(|c| match &only {
-            Some(o) => &c.name == o,
-            None => full || c.core,
-        })
-        .collect();
-    let k_tv = if full { 6 } else { 3 };
-    let k_oracle = oracle_n.unwrap_or(if full { 200 } else { 40 });
-    let mut results = Vec::new();
-    for c in &cfgs {
+/// one configuration, for any model implementing `Residual`
+fn one<R: Residual>(c: &ConfigG<R>, out_dir: &str, seed: u64, k_tv: usize, k_oracle: usize) -> Value {
         let mut rng = Rng(seed ^ trace::fxhash(&c.name));
         let sa = configs::sample_state(c, &mut rng);
         let mut sb = configs::sample_state(c, &mut rng);
@@ -262,11 +251,49 @@ Eval vm_compute in ("EULER", "P", let d := tan_outs P_prog P_n [0%nat] in map (f
                 }
             }
         }
-        results.push(json!({
+        json!({
             "name": c.name, "ncomp": c.ncomp, "programs": progs_json,
             "oracle": {"checks": nchecks, "worst_rel": if worst.is_finite() { json!(worst) } else { json!("inf") }, "failures": failures, "tol": ORACLE_TOL, "lambda_samples": lam_hist},
-        }));
+        })
+}
+
+pub fn run(out_dir: &str, tier: &str, seed: u64, only: Option<String>, oracle_n: Option<usize>) -> Value {
+    let full = tier == "thorough";
+    let cfgs: Vec<Config> = configs::all(full || only.is_some())
+        .into_iter()
+        .chain(configs::literal())
+        .filter(|c| match &only {
+            Some(o) => &c.name == o,
+            None => full || c.core,
+        })
+        .collect();
+    let k_tv = if full { 6 } else { 3 };
+    let k_oracle = oracle_n.unwrap_or(if full { 200 } else { 40 });
+    let mut results = Vec::new();
+    for c in &cfgs {
+        results.push(one(c, out_dir, seed, k_tv, k_oracle));
     }
+    // Helmholtz energy functionals used as bulk models ("for every model")
+    let sel = |n: &str, core: bool| match &only {
+        Some(o) => o == n,
+        None => full || core,
+    };
+    macro_rules! functional {
+        ($c:expr) => {{
+            let c = $c;
+            if sel(&c.name, c.core) {
+                results.push(one(&c, out_dir, seed, k_tv, k_oracle));
+            }
+        }};
+    }
+    functional!(functionals::pcsaft("fn_pcsaft_wb_propane_butane_kij", 0, true));
+    functional!(functionals::pcsaft("fn_pcsaft_kr_water_methanol", 1, false));
+    functional!(functionals::pcsaft("fn_pcsaft_wb_acetone_butanone", 2, true));
+    functional!(functionals::pcsaft("fn_pcsaft_wb_water", 3, true));
+    functional!(functionals::pcsaft("fn_pcsaft_aswb_propane", 4, false));
+    functional!(functionals::gc_pcsaft("fn_gcpcsaft_propanol_ethanol", true));
+    functional!(functionals::pets("fn_pets2", true));
+    functional!(functionals::saftvrqmie("fn_saftvrqmie_h2", false));
     json!({"property": "C02", "tier": tier, "seed": seed, "configs": results})
 }
 
